@@ -1151,13 +1151,16 @@ theorem ifaceBlockGuard_all (cs : List Nat) (h : ifaceBlockGuard cs ≠ 0) : ∀
   | cons c r =>
     by_cases hc : c ≠ 0 ∧ (c :: r).all (fun x => x == c)
     · have hb : ifaceBlockGuard (c :: r) = c := by
-        unfold ifaceBlockGuard; rw [if_pos hc]
+        show (if c ≠ 0 ∧ ((c :: r).all fun x => x == c) = true then c else 0) = c
+        rw [if_pos hc]
       intro x hx
       rw [hb]
       have := List.all_eq_true.mp hc.2 x hx
       simpa using this
-    · simp only [ifaceBlockGuard, hc, if_false] at h
-      exact absurd rfl h
+    · have h0 : ifaceBlockGuard (c :: r) = 0 := by
+        show (if c ≠ 0 ∧ ((c :: r).all fun x => x == c) = true then c else 0) = 0
+        rw [if_neg hc]
+      exact absurd h0 h
 
 /-- **generic interfaces and preprocessor guards** (for every list of members): member `i` of the
     emitted `interface <generic>` block is guarded by exactly its own `cpp_if` - nothing when it has
